@@ -25,7 +25,7 @@ EXPLANATION = 'block-sum theorems; oracle on the real code compares split with u
 
 
 def scenarios(seed, tier):
-    n = 240 if tier == 'quick' else 2500
+    n = 480 if tier == 'quick' else 2880
     rnd = random.Random(seed * 7919 + 14)
     for i in range(n):
         r2 = random.Random(rnd.getrandbits(48))
